@@ -348,12 +348,13 @@ func (r *runner) Exec(op string) (reply string, viol string) {
 			r.originOf[d] = h.origin
 			// C03_indices: consecutive from zero, no repetition (an invalid child, probability 2^-127, would be
 			// skipped; the oracle then has no key for that index and the address comparison reports it)
-			if pk, ok := ma.(waddrmgr.ManagedPubKeyAddress); ok {
+			clob := r.accts[scope][acct] != nil && r.accts[scope][acct].gen > 0
+			if pk, ok := ma.(waddrmgr.ManagedPubKeyAddress); ok && !clob {
 				if _, p, ok2 := pk.DerivationInfo(); ok2 && p.Index != idx {
 					v = append(v, fmt.Sprintf("C03 key=nextAddresses.index-not-consecutive: branch %s issued index %d, expected %d", bk, p.Index, idx))
 				}
 			}
-			if prev, dup := r.issuedAddr[d]; dup && prev == ma.Address().EncodeAddress() {
+			if prev, dup := r.issuedAddr[d]; dup && !clob && prev == ma.Address().EncodeAddress() {
 				v = append(v, fmt.Sprintf("C03 key=nextAddresses.address-repeated: %s issued twice", d))
 			}
 			r.issuedAddr[d] = ma.Address().EncodeAddress()
@@ -615,7 +616,11 @@ func (r *runner) Exec(op string) (reply string, viol string) {
 			return r.finish("", err, tap, v)
 		}
 		// harness bookkeeping vs reported counts (C03: indices consecutive, nothing skipped)
+		clob := r.accts[scope][atou(kv["a"])] != nil && r.accts[scope][atou(kv["a"])].gen > 0
 		for br, got := range []uint32{p.ExternalKeyCount, p.InternalKeyCount} {
+			if clob {
+				break
+			}
 			if want := r.nextIdx[fmt.Sprintf("%s/%d/%d", scope, atou(kv["a"]), br)]; want != got {
 				v = append(v, fmt.Sprintf("C03 key=accountProperties.key-count: branch %d reports %d keys, %d were issued", br, got, want))
 			}
